@@ -12,7 +12,7 @@
 From stdpp Require Import gmap strings list.
 From Fsn Require Import PathLex Bytes Tables Doc Watcher System Recurse RecurseHist CfgLang Cfg CfgExtra.
 From FsnGen Require Import GenCfg.
-From FsnObl Require Import OblCfg.
+From FsnObl Require Import OblC19.
 From Fsn Require PathLexProofs.
 Local Open Scope N_scope.
 
